@@ -1670,7 +1670,7 @@ func generate(o *kit.Out, r *kit.Rand, tier string) {
 	boundary(o)
 	nPair, nGated, nRaw := 400, 150, 200
 	if tier == "thorough" {
-		nPair, nGated, nRaw = 5000, 2000, 3000
+		nPair, nGated, nRaw = 10000, 4000, 6000
 	}
 	rp, rg, rr := r.Fork(), r.Fork(), r.Fork()
 	for i := 0; i < nPair; i++ {
